@@ -340,13 +340,21 @@ def _witness(spec, case):
     return {"spec": _spec_json(spec), "case": list(case)}
 
 
+_BREAKER = None  # cross-process count of trees that ran into the watchdog (multiprocessing.Value), set by run()
+
+
 def _run_chunk(chunk, prop, per_tree_timeout):
     res = Result(prop)
     old = signal.signal(signal.SIGALRM, _alarm)
     try:
         with warnings.catch_warnings():
             warnings.simplefilter("ignore")
-            for spec in chunk:
+            for pos, spec in enumerate(chunk):
+                if _BREAKER is not None and _BREAKER.value >= 6:
+                    # a traversal that does not terminate (or corrupts the trees it walks) would otherwise cost the watchdog's
+                    # time for every remaining tree: the violations found so far are reported, the rest is skipped
+                    res.notes.append(f"circuit breaker: {len(chunk) - pos} trees of this chunk not evaluated after repeated watchdog time-outs")
+                    break
                 try:
                     tree, nodes = gen.build(spec)
                     before = view.obs(tree)
@@ -367,10 +375,19 @@ def _run_chunk(chunk, prop, per_tree_timeout):
                         res.add_case(_case_repr(spec, case), nontrivial=nontrivial)
                         for clause, func, text in diffs:
                             res.violations.append(Violation(prop, clause, func, _witness(spec, case), clip(text)))
+                        if case[0] == "visit" and view.obs(tree) != before:
+                            # a traversal that writes the tree: reported at once, and the next case gets a fresh tree (the damage
+                            # would otherwise accumulate over the cases of this tree)
+                            res.violations.append(Violation(prop, CL_FRAME, "Node.visit", _witness(spec, case), clip(f"view.obs(tree) differs after {case}: {view.fmt(tree)}")))
+                            tree, nodes = gen.build(spec)
+                            before = view.obs(tree)
                 except _Timeout:
                     res.violations.append(
                         Violation(prop, CL_TERM, "Node.iterator/Node.visit", _witness(spec, case or ("for", -1)), f"no result within {per_tree_timeout}s (all cases of the tree)")
                     )
+                    if _BREAKER is not None:
+                        with _BREAKER.get_lock():
+                            _BREAKER.value += 1
                     continue
                 finally:
                     signal.setitimer(signal.ITIMER_REAL, 0)
@@ -432,7 +449,11 @@ def run(prop: str, tier: str, only=None) -> Result:
     hst = gen.history_specs(specs_for(n_hist))  # trees reached by one change of a tree whose accessors had all been evaluated
     big = gen.big_specs(seed() + 6, 12 if tier == "quick" else 60, lo=18, hi=40)  # size-dependent paths (long sibling runs / chains)
     total = Result(prop)
-    total.merge(parallel(_run_chunk, sorted(specs + rnd + hst + big, key=len, reverse=True), prop, 120.0, prop=prop, chunks_per_proc=8))
+    global _BREAKER
+    import multiprocessing as mp
+
+    _BREAKER = mp.get_context("fork").Value("i", 0)
+    total.merge(parallel(_run_chunk, sorted(specs + rnd + hst + big, key=len, reverse=True), prop, 30.0, prop=prop, chunks_per_proc=8))
     total.exhaustive = False  # the random trees are sampled; the part below the bound is exhaustive
     b = (
         f"every ordered forest with <= {max_n} nodes (distinct data / clone-rich labels / typed tree with kinds k1,k2; equal data under distinct ids <= 4 nodes) "
